@@ -467,6 +467,43 @@ def stream_struct(tier, seed):
         group("block", b, fields, nb, tag="valid")
         for why, m in mutate(rng, b, fields, 3 if quick else 8):
             group("block", m, fields, nb, tag="mut:" + why, prefixes=(k % 4 == 0), maxbrk=6)
+    # degenerate objects: every field zero (amount 0, empty script, null id, index 0, sequence 0, version 0, lock
+    # time 0), alone, repeated, and at the head / in the middle / at the tail of otherwise ordinary lists.  Random
+    # field bytes never produce them, and "the rest is all zero bytes" is exactly what a padding or end-of-data
+    # heuristic mistakes for nothing
+    zin = {"txid": bytes(32), "vout": 0, "sig": b"", "seq": 0}
+    zout = {"value": 0, "spk": b""}
+    nin_ = {"txid": bytes([7]) * 32, "vout": 3, "sig": b"\x51", "seq": 0xFFFFFFFE}
+    nout_ = {"value": 546, "spk": b"\x51"}
+    for outs in ([zout], [zout, zout], [zout] * 3, [nout_, zout], [nout_, zout, zout], [zout, nout_], [zout, nout_, zout], [zout, zout, nout_], [zout] * 253):
+        b, f = btc.obj_bytes("txouts", list(outs))
+        group("txouts", b, f, len(outs), tag="zero", maxbrk=3)
+    for ins in ([zin], [zin, zin], [nin_, zin], [zin, nin_], [nin_, zin, zin], [zin] * 253):
+        b, f = btc.obj_bytes("txins", list(ins))
+        group("txins", b, f, len(ins), tag="zero", maxbrk=3)
+    group("txout", btc.obj_bytes("txout", zout)[0], [], 0, tag="zero")
+    group("txin", btc.obj_bytes("txin", zin)[0], [], 0, tag="zero")
+    group("outpoint", bytes(36), [], 0, tag="zero")
+    group("script", b"\x00", [], 0, tag="zero")
+    group("header", bytes(80), [], 1, tag="zero")
+    for wit in ([], [b""], [b"", b""], [b"\x00"], [b"\x01", b""], [b"", b"\x01"]):
+        b, f = btc.obj_bytes("witness", list(wit))
+        group("witness", b, f, 0, tag="zero")
+    ztxs = []
+    for segwit, ins, outs, wits in ((False, [zin], [zout], []), (False, [zin], [], []), (False, [zin, zin], [zout, zout], []),
+                                    (True, [zin], [zout], [[b"\x00"]]), (True, [zin, zin], [zout, zout], [[], [b""]]),
+                                    (True, [], [zout], []), (True, [], [], []), (False, [nin_], [nout_, zout, zout], [])):
+        tx = {"version": 0, "ins": list(ins), "outs": list(outs), "segwit": segwit, "wits": list(wits), "locktime": 0}
+        tb, tf = btc.tx_bytes(tx)
+        group("transaction", tb, tf, nbreak_tx(tx), tag="zero", maxbrk=4)
+        ztxs.append(tx)
+    for txs in ([], ztxs[:1], ztxs[:3], ztxs):
+        blk = {"header": {"version": 0, "prev": bytes(32), "merkle": bytes(32), "time": 0, "bits": 0, "nonce": 0}, "txs": list(txs)}
+        try:
+            bb, bf = btc.block_bytes(blk)
+        except KeyError:
+            break
+        group("block", bb, bf, 1 + sum(nbreak_tx(t) for t in txs), tag="zero", maxbrk=4)
     # every byte value as the FIRST byte of a script, of a script sig, and of the first / last element of a witness
     # stack (a rule keyed on an opcode or tag byte: 0x50 annex, 0x6a OP_RETURN, 0x00 / 0x51 witness versions ...)
     for bv in range(256):
